@@ -77,6 +77,9 @@ def module_file(shape):
     return path
 
 
+BIG_UNIT = " ".join("(define (zz-filler-%d x) (if (< x %d) (+ x %d) (list x %d)))" % (i, i, i, i) for i in range(600))
+
+
 def case_steps(shape, k, timed_ms, gcplan, unit="separate"):
     name, defs, warm, endless = shape
     if unit == "same-unit":
@@ -85,6 +88,9 @@ def case_steps(shape, k, timed_ms, gcplan, unit="separate"):
         steps = ["(require \"%s\")" % module_file(shape), warm]
     else:
         steps = [defs, warm]
+    if unit == "compile-phase":
+        # the request arrives while Engine::run is still compiling the unit (600 definitions in front of the endless expression)
+        endless = BIG_UNIT + " " + endless
     if gcplan:
         steps.append({"op": "gcplan", "on": True})
     steps += [{"op": "int_plan", "k": k, "timed_ms": timed_ms}, endless, {"op": "int_report"}]
@@ -94,7 +100,7 @@ def case_steps(shape, k, timed_ms, gcplan, unit="separate"):
     return steps
 
 
-def judge(shape, r, gcplan):
+def judge(shape, r, gcplan, unit="separate"):
     """-> (class, detail) or None"""
     off = 1 if gcplan else 0
     if r["exit"] != "normal":
@@ -121,7 +127,7 @@ def judge(shape, r, gcplan):
         return ("other-error", "stopped with a different error: %s" % run.get("m", "")[:100])
     if not rep["timed"] and rep["dispatch_after"] > B:
         return ("late", "stopped only after %d further instruction dispatches" % rep["dispatch_after"])
-    if rep["timed"] and rep["latency_us"] > 1000000:
+    if rep["timed"] and rep["latency_us"] > 1000000 and unit != "compile-phase":
         return ("late", "stopped %d ms after the request" % (rep["latency_us"] // 1000))
     base = 5 + off + (1 if gcplan else 0)
     probe, again, depths = st[base + 1], st[base + 2], st[base + 3]
@@ -146,16 +152,18 @@ def work(item):
     nogates = False
     kinds = {}
     for k in ks:
-        timed = 0 if k > 0 else 60
+        timed = 0 if k > 0 else (8 if unit == "compile-phase" else 60)
         r = common.run_cases([{"id": 0, "steps": case_steps(shape, k, timed, gcplan, unit)}], env=e or None, batch=1, timeout_ms=HANG_MS)[0]
         n += 1
         if unit == "module" and r["exit"] == "normal" and r["steps"] and r["steps"][0]["s"] != "ok":
             break  # the shape's definitions cannot live in a module (eval, host functions): variant not applicable
-        j = judge(shape, r, gcplan)
+        j = judge(shape, r, gcplan, unit)
         if r["exit"] == "normal":
             try:
                 rep = r["steps"][4 + (1 if gcplan else 0)]["v"][0]
                 kinds[rep["kind"]] = kinds.get(rep["kind"], 0) + 1
+                if unit == "compile-phase" and rep["injected"] and rep["at"] == 0:
+                    kinds["before-first-gate"] = kinds.get("before-first-gate", 0) + 1
             except Exception:
                 pass
         if j and j[0] == "no-gates":
@@ -192,6 +200,8 @@ def main(argv=None):
             # compiled to a native loop may pass no gates at all), then the first arrival points
             for unit in ("same-unit", "module"):
                 items.append((si, cfgname, env, [0] + list(range(1, (K // 5 if a.tier == "thorough" else 12) + 1)), False, unit))
+            # a request that arrives while the evaluation is still being compiled
+            items.append((si, cfgname, env, [0], False, "compile-phase"))
     import shutil
     shutil.rmtree(MODDIR, ignore_errors=True)
     for sh in SHAPES:
@@ -215,7 +225,7 @@ def main(argv=None):
             k, detail = lst[0]
             si = [i for i, s in enumerate(SHAPES) if s[0] == key.split("/")[0]][0]
             gcplan = "gc-every-allocation" in key
-            unit = "same-unit" if key.endswith("/same-unit") else ("module" if key.endswith("/module") else "separate")
+            unit = "same-unit" if key.endswith("/same-unit") else ("module" if key.endswith("/module") else ("compile-phase" if key.endswith("/compile-phase") else "separate"))
             env = dict(CONFIGS[0][1] or {}) if "jit-on" in key else dict(CONFIGS[1][1])
             if gcplan:
                 env["STEEL_VERIF_GC"] = "every"
@@ -223,7 +233,7 @@ def main(argv=None):
                           {"shape": key, "class": cls, "smallest_arrival_point": k, "arrival_points_failing": [x[0] for x in lst][:50], "detail": detail},
                           {"case": {"steps": case_steps(SHAPES[si], k, 0 if k else 60, gcplan, unit)}, "env": env or None, "timeout_ms": HANG_MS})
     cov = {"evaluations": total, "distinct_nontrivial": total,
-           "rule": "%d program shapes x {native code on, off} (+ forced collection at every allocation for the allocating shapes; + definitions compiled in the same unit as the first call / in a required module, delayed request and first arrival points) x every arrival point k = 1..%d of the request "
+           "rule": "%d program shapes x {native code on, off} (+ forced collection at every allocation for the allocating shapes; + a request arriving 8 ms into an evaluation that starts with 600 definitions, i.e. while it is still being compiled; + definitions compiled in the same unit as the first call / in a required module, delayed request and first arrival points) x every arrival point k = 1..%d of the request "
                    "(k-th gate of the engine thread after arming, any gate kind) + one delayed request from a watchdog thread; a shape whose arrival points hang is cut off "
                    "after 4 hangs (planned %d cases, run %d)" % (len(SHAPES), K, planned, total),
            "samples": [SHAPES[0][3], SHAPES[12][1][:120], SHAPES[21][1][:120]], "exhaustive": total == planned, "arrival_gate_kinds": kinds, "bound_dispatches": B, "hang_limit_ms": HANG_MS}
